@@ -1,22 +1,16 @@
 (* RenderProofs.v — layers A (bit buffer) and B (block rendering) of WModel/CodecSpec.v.
 
-   STATEMENT FOUND FALSE AS WRITTEN: encode_block_statement.
-   block_ok ts constrains the code lengths only; it says nothing about the distances of the
-   match tokens.  A distance far outside the format (its symbol is outside the 30-entry
-   distance table, so it is not even counted in the histogram) has more than 64 extra bits;
-   write_bits then leaves more than 64 bits in the accumulator and, for a last block,
-   bb_flush_last (9 bytes at most) drops bits.  Counterexample (checked with vm_compute, see
-   encode_block_counterexample below):
-
-     ts := [TMatch 3 (2^200+1)]      block_ok_b ts = true
-     encode_block false ts false bb_empty : length (bb_acc b') = 99   (> 64: third conjunct fails)
-     encode_block false ts true  bb_empty : 264 bits rendered, pad8 (block_bits ts true) has 296
-                                                                     (first conjunct fails)
-
-   Proved instead: encode_block_ok_partial : encode_block_partial_statement, the same statement
-   with the extra hypothesis  Forall tok_fits ts  (every match distance has at most 64 extra
-   bits); tok_fits follows from tok_ok/toks_ok with a window W <= 2^64 (toks_ok_fits), so from
-   the LZ77 contract.  The other four statements are proved as written. *)
+   Historical note.  An earlier encode_block_statement had no premise on the tokens beyond
+   block_ok ts, and was false: block_ok constrains code lengths only, and a match distance far
+   outside the format (its symbol is outside the 30-entry distance table, so it is not even
+   counted in the histogram) has more than 64 extra bits; write_bits then leaves more than 64
+   bits in the accumulator and, for a last block, bb_flush_last (9 bytes at most) drops bits.
+   Counterexample (vm_compute):  ts := [TMatch 3 (2^200+1)],  block_ok_b ts = true,
+     encode_block false ts false bb_empty : length (bb_acc b') = 99   (> 64)
+     encode_block false ts true  bb_empty : 264 bits rendered, pad8 (block_bits ts true) has 296.
+   CodecSpec.v now defines tok_fits (a match distance has at most 64 extra bits) and
+   encode_block_statement carries the premise  Forall tok_fits ts;  it follows from
+   tok_ok/toks_ok with a window W <= 2^64 (toks_ok_fits below), so from the LZ77 contract. *)
 From Verif Require Import CodecSpec.
 From Verif Require Import HuffmanProofs.
 From Coq Require Import ZArith Lia ZifyBool ZifyNat ZifyN.
@@ -463,13 +457,6 @@ Qed.
 (* ------------------------------------------------------------------ *)
 (* tokens                                                               *)
 
-(* the extra hypothesis of the partial theorem: a match distance has at most 64 extra bits *)
-Definition tok_fits (t : tok) : Prop :=
-  match t with
-  | TLit _ => True
-  | TMatch _ dist => dist_extra_bits (fst (dist_symbol dist)) <= 64
-  end.
-
 Lemma len_symbol_extra : forall len, snd (fst (len_symbol len)) <= 5.
 Proof.
   intros len. unfold len_symbol. cbv zeta.
@@ -624,3 +611,264 @@ Section Rounds.
           apply bb_take_lt. apply Hi1.
   Qed.
 End Rounds.
+
+(* ------------------------------------------------------------------ *)
+(* B: dynamic blocks                                                    *)
+
+Lemma encode_rounds_eq : forall fuel sync lc dc last ts b chunks,
+  encode_rounds fuel sync lc dc last ts b chunks =
+  grounds tok (fun ts b => encode_tokens lc dc out_limit ts (if sync then bb_sync b else b))
+          last fuel ts b chunks.
+Proof.
+  induction fuel as [|fuel IH]; intros sync lc dc last ts b chunks.
+  - reflexivity.
+  - destruct ts as [|t r]; [reflexivity|].
+    cbn [encode_rounds grounds].
+    destruct (encode_tokens lc dc out_limit (t :: r) (if sync then bb_sync b else b)) as [rest b1].
+    unfold bb_take. apply IH.
+Qed.
+
+Lemma enc_tokens_round_spec : forall (sync : bool) lc dc ts b,
+  ts <> [] -> bb_inv b -> Forall (tokW lc dc) ts ->
+  forall rest b1,
+  encode_tokens lc dc out_limit ts (if sync then bb_sync b else b) = (rest, b1) ->
+  bb_inv b1 /\ (length rest < length ts)%nat /\ Forall (tokW lc dc) rest /\
+  bb_bits b1 ++ flat_map (token_bits lc dc) rest = bb_bits b ++ flat_map (token_bits lc dc) ts.
+Proof.
+  intros sync lc dc ts b Hne Hb HP rest b1 E.
+  assert (Hb0 : bb_inv (if sync then bb_sync b else b)).
+  { destruct sync; [apply bb_sync_inv; apply Hb | exact Hb]. }
+  assert (He0 : bb_bits (if sync then bb_sync b else b) = bb_bits b).
+  { destruct sync; [apply bb_sync_bits | reflexivity]. }
+  destruct (encode_tokens_spec lc dc out_limit ts _ Hb0 HP rest b1 E) as [Hi [Hl [HP1 Hbits]]].
+  rewrite He0 in Hbits. auto.
+Qed.
+
+Theorem encode_block_ok : encode_block_statement.
+Proof.
+  intros sync ts last b Hacc Hok Hfits.
+  destruct (encode_block sync ts last b) as [chunks b'] eqn:E.
+  unfold encode_block in E. unfold block_ok, block_lens in Hok. unfold block_bits, block_lens.
+  destruct (tok_counts ts) as [lc dc]. cbv zeta in E.
+  destruct Hok as [H1 [H2 H3]].
+  apply lens_valid_le in H1. apply lens_valid_le in H2. apply lens_valid_le in H3.
+  set (ll := generate 15 (reduce_counts lc)) in *. set (dl := generate 15 dc) in *.
+  assert (Hb0 : bb_inv (mkbb [] (bb_acc b))) by (split; [exact Hacc | constructor]).
+  destruct (write_header_bits ll dl last _ H3 Hb0) as [Hi He].
+  rewrite encode_rounds_eq in E.
+  apply (grounds_spec tok _ (flat_map (token_bits (gen_codes ll) (gen_codes dl)))
+                      (Forall (tokW (gen_codes ll) (gen_codes dl))) last eq_refl
+                      (enc_tokens_round_spec sync (gen_codes ll) (gen_codes dl))) in E.
+  - destruct E as [E1 [E2 [E3 [E4 E5]]]].
+    split; [|auto].
+    rewrite E1, He, bb_bits_nil, flat_map_app. cbn [flat_map token_bits concat].
+    change (bits_of_bytes []) with (@nil bool). cbn [app]. rewrite app_nil_r.
+    unfold fin. rewrite <- !app_assoc. reflexivity.
+  - rewrite app_length. cbn [length]. lia.
+  - destruct ts; discriminate.
+  - apply Forall_app. split.
+    + eapply Forall_impl; [|exact Hfits]. intros t Ht. apply write_token_writer; assumption.
+    + constructor; [|constructor]. apply write_token_writer; [assumption | assumption | exact I].
+  - exact Hi.
+  - constructor.
+Qed.
+
+(* tok_fits follows from the validity of tokens (LZ77Spec.tok_ok) for any window <= 2^64 *)
+Lemma dist_extra_bits_bound : forall d, d <= 2 ^ 64 -> dist_extra_bits (fst (dist_symbol d)) <= 64.
+Proof.
+  intros d Hd. unfold dist_symbol.
+  destruct (d <=? 2) eqn:E2; cbn [fst]; unfold dist_extra_bits.
+  - apply N.leb_le in E2. destruct (d - 1 <? 4) eqn:E4; [lia|]. apply N.ltb_ge in E4. lia.
+  - apply N.leb_gt in E2. cbv zeta.
+    set (d' := d - 1). set (nb := N.size d' - 2).
+    assert (Hd' : 2 <= d' < 2 ^ 64) by (unfold d'; lia).
+    assert (Hs : N.size d' = N.succ (N.log2 d')) by (apply N.size_log2; lia).
+    assert (Hl1 : 1 <= N.log2 d').
+    { change 1 with (N.log2 2). apply N.log2_le_mono. lia. }
+    assert (Hl2 : N.log2 d' < 64) by (apply N.log2_lt_pow2; lia).
+    assert (Hsh : N.shiftr d' nb < 4).
+    { rewrite N.shiftr_div_pow2. apply N.div_lt_upper_bound.
+      - apply N.pow_nonzero. discriminate.
+      - pose proof (N.size_gt d') as Hg.
+        replace (N.size d') with (nb + 2) in Hg by (unfold nb; lia).
+        rewrite N.pow_add_r in Hg. change (2 ^ 2) with 4 in Hg. lia. }
+    assert (Hnb : nb <= 62) by (unfold nb; lia).
+    destruct (N.shiftr d' nb + 2 * nb <? 4); [lia|].
+    assert (Hdiv : (N.shiftr d' nb + 2 * nb) / 2 <= nb + 1).
+    { apply N.lt_succ_r. apply N.div_lt_upper_bound; lia. }
+    lia.
+Qed.
+
+Lemma toks_ok_fits : forall W ts before, W <= 2 ^ 64 -> toks_ok W before ts -> Forall tok_fits ts.
+Proof.
+  intros W ts. induction ts as [|t r IH]; intros before HW H.
+  - constructor.
+  - cbn [toks_ok] in H. destruct H as [Ht Hr]. constructor; [|apply (IH _ HW Hr)].
+    destruct t as [x | len dist]; cbn [tok_fits]; [exact I|].
+    cbn [tok_ok] in Ht. apply dist_extra_bits_bound. lia.
+Qed.
+
+(* ------------------------------------------------------------------ *)
+(* B: Huffman-only blocks                                               *)
+
+Definition hbits (lc : list (N * N)) (data : list N) : list bool :=
+  match data with
+  | [] => []
+  | _ => flat_map (sym_word lc) data ++ sym_word lc 256
+  end.
+
+Lemma fold_app_words : forall lc data acc,
+  fold_left (fun a x => a ++ sym_word lc x) data acc = acc ++ flat_map (sym_word lc) data.
+Proof.
+  intros lc data. induction data as [|x r IH]; intros acc; cbn [fold_left flat_map].
+  - rewrite app_nil_r. reflexivity.
+  - rewrite IH, app_assoc. reflexivity.
+Qed.
+
+(* bb_sync on a buffer given by its fields *)
+Lemma sync_mk : forall out acc, Forall lt256 out ->
+  let bs := bb_sync (mkbb out acc) in
+  bb_bits bs = bits_of_bytes (rev out) ++ acc /\ (length (bb_acc bs) < 8)%nat /\
+  Forall lt256 (bb_out bs).
+Proof.
+  intros out acc Ho bs. split; [|split].
+  - unfold bs. rewrite bb_sync_bits. reflexivity.
+  - apply bb_sync_acc.
+  - apply bb_sync_out. exact Ho.
+Qed.
+
+Definition ebytes_tail (lc : list (N * N)) (data : list N) (b : bitbuf) : list N * bitbuf :=
+  let acc := fold_left (fun a x => a ++ sym_word lc x) data (bb_acc b) in
+  let b1 := bb_sync (mkbb (bb_out b) acc) in
+  ([], mkbb (bb_out b1) (bb_acc b1 ++ sym_word lc 256)).
+
+Lemma ebytes_tail_spec : forall lc data b,
+  (length (sym_word lc 256) <= 56)%nat -> Forall lt256 (bb_out b) ->
+  forall rest b1, ebytes_tail lc data b = (rest, b1) ->
+  rest = [] /\ bb_inv b1 /\
+  bb_bits b1 = bb_bits b ++ flat_map (sym_word lc) data ++ sym_word lc 256.
+Proof.
+  intros lc data b H256 Ho rest b1 E. unfold ebytes_tail in E. cbv zeta in E.
+  destruct (sync_mk (bb_out b) (fold_left (fun a x => a ++ sym_word lc x) data (bb_acc b)) Ho)
+    as [Hs1 [Hs2 Hs3]].
+  remember (bb_sync (mkbb (bb_out b) (fold_left (fun a x => a ++ sym_word lc x) data (bb_acc b))))
+    as bs eqn:Ebs. clear Ebs.
+  inversion E; subst rest b1. clear E.
+  split; [reflexivity|]. split.
+  - split; cbn [bb_out bb_acc]; [rewrite app_length; lia | exact Hs3].
+  - unfold bb_bits in *. cbn [bb_out bb_acc]. rewrite app_assoc, Hs1, fold_app_words.
+    rewrite <- !app_assoc. reflexivity.
+Qed.
+
+Lemma encode_bytes_4 : forall lc x y z w r b,
+  encode_bytes lc (x :: y :: z :: w :: r) b =
+  let acc := bb_acc b ++ sym_word lc x ++ sym_word lc y ++ sym_word lc z in
+  let b1 := bb_sync (mkbb (bb_out b) acc) in
+  if hlimit <=? bb_idx b1 then (w :: r, b1) else encode_bytes lc (w :: r) b1.
+Proof. reflexivity. Qed.
+
+Lemma encode_bytes_spec : forall lc, (length (sym_word lc 256) <= 56)%nat ->
+  forall n data b, (length data <= n)%nat -> Forall lt256 (bb_out b) ->
+  forall rest b1, encode_bytes lc data b = (rest, b1) ->
+  bb_inv b1 /\ (data <> [] -> (length rest < length data)%nat) /\
+  bb_bits b1 ++ hbits lc rest = bb_bits b ++ flat_map (sym_word lc) data ++ sym_word lc 256.
+Proof.
+  intros lc H256.
+  assert (Htail : forall data b, Forall lt256 (bb_out b) ->
+    forall rest b1, ebytes_tail lc data b = (rest, b1) ->
+    bb_inv b1 /\ (data <> [] -> (length rest < length data)%nat) /\
+    bb_bits b1 ++ hbits lc rest = bb_bits b ++ flat_map (sym_word lc) data ++ sym_word lc 256).
+  { intros data b Ho rest b1 E.
+    destruct (ebytes_tail_spec lc data b H256 Ho rest b1 E) as [Hr [Hi Hb]]. subst rest.
+    split; [exact Hi|]. split.
+    - intros Hne. destruct data; [congruence | cbn [length]; lia].
+    - cbn [hbits]. rewrite app_nil_r. exact Hb. }
+  induction n as [|n IH]; intros data b Hlen Ho rest b1 E.
+  - destruct data; [|cbn [length] in Hlen; lia].
+    change (encode_bytes lc [] b) with (ebytes_tail lc [] b) in E. apply (Htail _ _ Ho _ _ E).
+  - destruct data as [|x [|y [|z [|w r]]]].
+    + change (encode_bytes lc [] b) with (ebytes_tail lc [] b) in E. apply (Htail _ _ Ho _ _ E).
+    + change (encode_bytes lc [x] b) with (ebytes_tail lc [x] b) in E. apply (Htail _ _ Ho _ _ E).
+    + change (encode_bytes lc [x; y] b) with (ebytes_tail lc [x; y] b) in E.
+      apply (Htail _ _ Ho _ _ E).
+    + change (encode_bytes lc [x; y; z] b) with (ebytes_tail lc [x; y; z] b) in E.
+      apply (Htail _ _ Ho _ _ E).
+    + rewrite encode_bytes_4 in E. cbv zeta in E.
+      destruct (sync_mk (bb_out b)
+                  (bb_acc b ++ sym_word lc x ++ sym_word lc y ++ sym_word lc z) Ho)
+        as [Hs1 [Hs2 Hs3]].
+      remember (bb_sync (mkbb (bb_out b)
+                  (bb_acc b ++ sym_word lc x ++ sym_word lc y ++ sym_word lc z)))
+        as bs eqn:Ebs. clear Ebs.
+      assert (Hbs : bb_bits bs = bb_bits b ++ sym_word lc x ++ sym_word lc y ++ sym_word lc z).
+      { rewrite Hs1. unfold bb_bits. rewrite <- app_assoc. reflexivity. }
+      destruct (hlimit <=? bb_idx bs).
+      * inversion E; subst rest b1. clear E.
+        split; [split; [lia | exact Hs3]|]. split; [intros _; cbn [length]; lia|].
+        rewrite Hbs. cbn [hbits flat_map]. rewrite <- !app_assoc. reflexivity.
+      * apply IH in E; [|cbn [length] in *; lia | exact Hs3].
+        destruct E as [Hi [Hl Hb]]. split; [exact Hi|]. split.
+        { intros _. specialize (Hl ltac:(discriminate)). cbn [length] in *. lia. }
+        rewrite Hb, Hbs. cbn [flat_map]. rewrite <- !app_assoc. reflexivity.
+Qed.
+
+Lemma hencode_rounds_eq : forall fuel lc final data b chunks,
+  hencode_rounds fuel lc final data b chunks =
+  grounds N (fun d b => encode_bytes lc d (bb_sync b)) final fuel data b chunks.
+Proof.
+  induction fuel as [|fuel IH]; intros lc final data b chunks.
+  - reflexivity.
+  - destruct data as [|x r]; [reflexivity|].
+    cbn [hencode_rounds grounds].
+    destruct (encode_bytes lc (x :: r) (bb_sync b)) as [rest b1].
+    unfold bb_take. apply IH.
+Qed.
+
+Lemma enc_bytes_round_spec : forall lc, (length (sym_word lc 256) <= 56)%nat ->
+  forall data b, data <> [] -> bb_inv b -> True ->
+  forall rest b1, encode_bytes lc data (bb_sync b) = (rest, b1) ->
+  bb_inv b1 /\ (length rest < length data)%nat /\ True /\
+  bb_bits b1 ++ hbits lc rest = bb_bits b ++ hbits lc data.
+Proof.
+  intros lc H256 data b Hne Hb _ rest b1 E.
+  destruct (encode_bytes_spec lc H256 (length data) data (bb_sync b) (le_n _)
+              (bb_sync_out b (proj2 Hb)) rest b1 E) as [Hi [Hl Hbits]].
+  split; [exact Hi|]. split; [apply Hl; exact Hne|]. split; [exact I|].
+  rewrite Hbits, bb_sync_bits. destruct data; [congruence | reflexivity].
+Qed.
+
+Theorem hencode_block_ok : hencode_block_statement.
+Proof.
+  intros data final b Hacc Hout Hne Hok Hdata.
+  destruct (hencode_block data final b) as [chunks b'] eqn:E.
+  unfold hencode_block in E. cbv zeta in E.
+  unfold hblock_ok in Hok. cbv zeta in Hok. unfold hblock_bits. cbv zeta.
+  unfold hblock_lens in *.
+  set (ll := generate 15 (reduce_counts (fold_left (fun h x => incN h x 1) data (repeat 0 513)))) in *.
+  destruct Hok as [H1 H2]. apply lens_valid_le in H1. apply lens_valid_le in H2.
+  assert (Hb0 : bb_inv b) by (split; [exact Hacc | rewrite Hout; constructor]).
+  destruct (write_header_bits ll (repeat 0 30) final b H2 Hb0) as [Hi He].
+  assert (H256 : (length (sym_word (gen_codes ll) 256) <= 56)%nat).
+  { pose proof (sym_word_le ll 15 256 H1). lia. }
+  rewrite hencode_rounds_eq in E.
+  apply (grounds_spec N _ (hbits (gen_codes ll)) (fun _ => True) final eq_refl
+                      (enc_bytes_round_spec (gen_codes ll) H256)) in E.
+  - destruct E as [E1 [E2 [E3 [E4 E5]]]].
+    split; [|auto].
+    rewrite E1, He. cbn [concat]. change (bits_of_bytes []) with (@nil bool). cbn [app].
+    assert (Hbb : bb_bits b = bb_acc b) by (unfold bb_bits; rewrite Hout; reflexivity).
+    rewrite Hbb. destruct data as [|x r]; [congruence|]. cbn [hbits].
+    unfold fin. rewrite <- !app_assoc. reflexivity.
+  - lia.
+  - exact Hne.
+  - exact I.
+  - exact Hi.
+  - constructor.
+Qed.
+
+Print Assumptions lens_valid_b_sound.
+Print Assumptions event_ok_b_sound.
+Print Assumptions bitbuf_ok.
+Print Assumptions encode_block_ok.
+Print Assumptions hencode_block_ok.
+Print Assumptions toks_ok_fits.
